@@ -55,6 +55,14 @@ CHECKS = {
          "validated by TLC. Exhaustive over that family only; real kernel sockets are not used.",
          "in-memory streams emulate EOF/reset the way asyncio's selector transport reports them (call_soon). " + TRUST,
          "DESIGN.md section 4, C08"),
+ "C17": ("TLA+ contract of forward/reverse/head/tail/filter slices (PenlogContract) and design model of the lazy offset-table "
+         "reader (Penlog.tla) model-checked by TLC; TLC validates sessions of the real writer (zst log handler) and the real "
+         "PenlogReader / hr entry point; TLC-simulated reader behaviours replayed into the code",
+         "Exhaustive TLC model checking over logs of length 0..4 x modes x counts x offsets with four negative controls; TLC "
+         "validation of every real reader session over all logs of length 0..3 (0..4) x all model operations alone and in "
+         "pairs (fresh and used readers), 5 containers, plus seeded hostile-Unicode / long-line / large logs.",
+         "text equality checked on a sample as code-point sequences, elsewhere by injective record ids. " + TRUST,
+         "DESIGN.md section 4, C17"),
 }
 PENDING = {}
 
